@@ -20,7 +20,7 @@ TECHNIQUE = {
  "C13": "Coq proof (partial): invariant preserved by every single atomic write of every operation under any worker interleaving, parametric in regenerated write-order skeletons; crash-prefix replay against real stores",
  "C14": "Coq proof (partial): write-list model of Commit/Discard, all-or-completable for every cut and enumeration order; fault injection at every store call and inside SQL statements",
  "C15": "Coq proof: SQL-statement model refines a plain map with logs for every op sequence (simulation); instr = literal prefix; differential execution on real SQLite",
- "C16": "Coq proof (partial): interleaving semantics generated from the regenerated lockset skeleton, sequential result under every schedule; forced-schedule and fault soak",
+ "C16": "Coq proof (partial): interleaving semantics generated from the regenerated lockset skeleton, sequential result under every schedule; data-race freedom of the progress counters from the regenerated access kinds; forced-schedule and fault soak, command-level batches in child processes, replay under a -race build as violation search",
  "C17": "Coq proof: decoders in an explicit panic/allocation monad never Panic, fuel linear, allocation <= c|b|+k; receiver keeps the store closed for every packfile; differential execution on mutated encodings",
  "C18": "Coq proof: io.ReadFull / CopyN partition-independent, lifted to every decoder built from them, for every byte string and partition; tie: all read sites Full; differential execution under chunked readers",
  "C19": "Coq proof: k-way merge of any sorted-run partition = sorted key-dedup, both outputs agree, cleanup over Reset histories; differential execution",
